@@ -135,6 +135,7 @@ type world struct {
 	Publisher     bool   // publisher node (arbitrating, creates blocks) or follower (non-arbitrating)
 	GenesisCoins  uint64
 	MaxBlockSize  uint32
+	SmallTxn      bool // run with USER_MAX_TXN_SIZE=1024 (set in the environment of the worker processes): 1 KiB transaction and block limits
 }
 
 var (
@@ -170,6 +171,10 @@ func (w world) config() visor.Config {
 	}
 	c.UnconfirmedVerifyTxn = vpUnconfirmed
 	c.CreateBlockVerifyTxn = vpCreateBlock
+	if w.SmallTxn {
+		c.UnconfirmedVerifyTxn.MaxTransactionSize = 1024
+		c.CreateBlockVerifyTxn.MaxTransactionSize = 1024
+	}
 	c.MaxBlockTransactionsSize = w.MaxBlockSize
 	c.Distribution = w.dist()
 	c.GenesisAddress = idG.Addr
@@ -181,11 +186,21 @@ func (w world) config() visor.Config {
 
 func (w world) modelParams() ledger.Params {
 	u := params.UserVerifyTxn
+	ms := func(v uint32) uint32 {
+		if w.SmallTxn {
+			return 1024
+		}
+		return v
+	}
+	if w.SmallTxn && u.MaxTransactionSize != 1024 {
+		panic("CHECK-BROKEN: small-transaction world needs USER_MAX_TXN_SIZE=1024 in the environment")
+	}
+	_ = ms
 	return ledger.Params{
 		Pubkey:       idP.Pub,
 		Locked:       map[cipher.Address]bool{idL.Addr: true},
-		Unconfirmed:  ledger.VerifyParams{Burn: vpUnconfirmed.BurnFactor, MaxSize: vpUnconfirmed.MaxTransactionSize, Precision: vpUnconfirmed.MaxDropletPrecision},
-		CreateBlock:  ledger.VerifyParams{Burn: vpCreateBlock.BurnFactor, MaxSize: vpCreateBlock.MaxTransactionSize, Precision: vpCreateBlock.MaxDropletPrecision},
+		Unconfirmed:  ledger.VerifyParams{Burn: vpUnconfirmed.BurnFactor, MaxSize: ms(vpUnconfirmed.MaxTransactionSize), Precision: vpUnconfirmed.MaxDropletPrecision},
+		CreateBlock:  ledger.VerifyParams{Burn: vpCreateBlock.BurnFactor, MaxSize: ms(vpCreateBlock.MaxTransactionSize), Precision: vpCreateBlock.MaxDropletPrecision},
 		User:         ledger.VerifyParams{Burn: u.BurnFactor, MaxSize: u.MaxTransactionSize, Precision: u.MaxDropletPrecision},
 		MaxBlockSize: w.MaxBlockSize,
 	}
